@@ -327,7 +327,9 @@ def line(item, res):
         label = "b%d" % b["pat"]
     else:
         pre, suf, _ = hv[item.params["harvested"]]
-        alphabet = sec.SECRET_ALPHABET
+        # a template that glues a delimiter to the secret ("{}:100", "\"{}\"") delimits the secret by that character: the secret
+        # itself cannot contain it (otherwise only a part of the token is the secret, and that part may be a reserved word)
+        alphabet = sec.SECRET_ALPHABET - {ord(c) for c in (pre[-1:] + suf[:1]) if not c.isspace()}
         fixed_len = None
         label = "t%d" % item.params["harvested"]
     vs = sec.secret_vars(n)
